@@ -42,14 +42,14 @@ def type_items():
 # types whose path count needs several cores: the first log2(n) symbolic bools are fixed per instance
 SPLIT = {'cat.Maps': 16, 'cat.HasUnions': 16, 'cat.Nest': 16, 'cat.Opt': 16, 'cat.UO': 8, 'cat.Lists': 2,
          'cat.Deep': 2, 'cat.UsesAliases': 2, 'cat.WithBytes': 8}
-# quick tier: explored one top-level field at a time (the other fields hold fixed valid values)
+# explored one top-level field at a time (the other fields hold fixed valid values), in both tiers
 FOCUS = ('cat.HasUnions', 'cat.WithBytes', 'cat.Colls', 'cat.UColl')
 
 
 def split_items(items):
     out = []
     for it in items:
-        if it in FOCUS and hx.TIER == 'quick':
+        if it in FOCUS:                   # both tiers: the product of these types' independent fields does not finish
             out.extend('%s#%d' % (it, k) for k in range(len([f for f in lookup(it)[0].all_fields
                                                              if not getattr(f, 'catch_all', False)])))
             continue
